@@ -195,7 +195,9 @@ def run(rep, tier, seed, replay):
             rep.design_runs.append({"what": "deviation %s violates %s (non-vacuity)" % (nm, inv), "generated": r2.generated, "distinct": r2.distinct})
         # ---- 2. generator: one history per transition of the bounded state graph
         hists = []
-        for prof, depth in (("core", d_core), ("full", d_full)):
+        # (one history per transition: deeper than 4 / 3 is millions of histories - the thorough tier goes deeper
+        #  in the design check and with random histories instead)
+        for prof, depth in (("core", 4), ("full", 3)):
             g = vlib.tlc("Heap_MC", mc_cfg(wdir, "gen_" + prof, depth, prof, True), workers=vlib.NCPU, timeout_s=1500, xmx="16g")
             if not g.ok:
                 raise vlib.MachineryError("generator run failed: %s" % (g.error or g.violated))
